@@ -152,6 +152,7 @@ class Project:
         self.funcs: Dict[str, FuncInfo] = {}
         self.classes: Dict[str, ClassInfo] = {}
         self.func_of_node: Dict[int, FuncInfo] = {}
+        self.renamed: Dict[str, Dict[str, Dict[str, str]]] = {}     # locals alpha-converted back to the reference vocabulary (sa/canon.py)
         self._load()
 
     # ------------------------------------------------------------------ io
@@ -190,6 +191,11 @@ class Project:
                 tree = ast.parse(text, filename=rel)
             except SyntaxError as e:
                 raise AnalysisError(f'{rel} does not parse: {e}')
+            if not os.environ.get('VERIF_NO_CANON'):
+                from . import canon
+                done = canon.canonicalise(tree, rel)
+                if done:
+                    self.renamed[rel] = done
             set_parents(tree)
             modpath = rel[len('src/'):-3].replace('/', '.')
             is_pkg = False
@@ -198,6 +204,9 @@ class Project:
                 is_pkg = True
             mi = ModuleInfo(modpath, rel, text, tree, is_pkg)
             self.modules[modpath] = mi
+        if any('#params' in m for per in self.renamed.values() for m in per.values()):
+            from . import canon
+            canon.fix_keywords({mi.relpath: mi.tree for mi in self.modules.values()}, self.renamed)
         for mi in self.modules.values():
             self._index_module(mi)
         for ci in self.classes.values():
